@@ -12,7 +12,7 @@ from concurrent.futures import ThreadPoolExecutor
 HERE = os.path.dirname(os.path.abspath(__file__))
 ROOT = os.path.dirname(HERE)
 
-EXTRA = {'C11-12': ['C16', 'C04'], 'C11-13': ['C02'], 'C11-14': ['C12'], 'C01-11': ['C09'], 'C16-10': ['C02'], 'C16-11': ['C02'], 'C14-10': ['C10'], 'C13-1': ['C02'], 'C03-5': ['C01'], 'C15-5': ['C09'], 'C20-5': ['C14'], 'C11-6': ['C06'], 'C05-8': ['C06'], 'C02-6': ['C04']}      # seeds that a second check should see as well
+EXTRA = {'C13-15': ['C02'], 'C02-16': ['C04'], 'C11-12': ['C16', 'C04'], 'C11-13': ['C02'], 'C11-14': ['C12'], 'C01-11': ['C09'], 'C16-10': ['C02'], 'C16-11': ['C02'], 'C14-10': ['C10'], 'C13-1': ['C02'], 'C03-5': ['C01'], 'C15-5': ['C09'], 'C20-5': ['C14'], 'C11-6': ['C06'], 'C05-8': ['C06'], 'C02-6': ['C04']}      # seeds that a second check should see as well
 
 
 def one(d):
